@@ -232,3 +232,20 @@ Definition judge (c : c08case) : N :=
           else (if model_ok then V_AGREE else V_DIVERGE)
       end
   end.
+
+(* ---------- tools/c08_xcheck.py: the verdicts of the two semantics per
+   instance (2 * source + published), formats ignored as the independent
+   validator ignores them ---------- *)
+Definition fmt_true (f : str) (j : json) : bool := true.
+Definition xvec (c : c08case) : list N :=
+  match c with
+  | CConv _ _ _ src defs obs instances =>
+      let ej := env_js pat_c fmt_true FUEL defs in
+      map (fun j =>
+             (if valid_js ej pat_c fmt_true src j then 2 else 0)
+             + match obs with
+               | ObsOk o comps =>
+                   if valid_oas (env_oas pat_c fmt_true FUEL comps) pat_c fmt_true o j then 1 else 0
+               | _ => 0
+               end) instances
+  end.
